@@ -225,13 +225,13 @@ def run_families(ctx, plans, relevant):
         fam = FAMILIES[fam_name]
         for i, ck in enumerate(plan.get('checks', [])):
             ck = dict(ck)
-            model = Model(fam, rcs=ck.pop('rcs', None), lists=ck.pop('lists', None))
+            model = Model(fam, rcs=ck.pop('rcs', None), lists=ck.pop('lists', None), name_mode=plan.get('name_mode', False))
             check_model(ctx, model, f'{fam_name}{i}', ck.pop('steps'), slots=ck.pop('slots', 2),
                         force_sets=ck.pop('force_sets', 'small'), **ck)
         behs = []
         gen = dict(plan.get('gen') or {})
         if gen:
-            model = Model(fam, rcs=gen.pop('rcs', None), lists=gen.pop('lists', None))
+            model = Model(fam, rcs=gen.pop('rcs', None), lists=gen.pop('lists', None), name_mode=plan.get('name_mode', False))
             steps = gen.pop('steps')
             g = export_graph(ctx, model, fam_name, steps, slots=gen.pop('slots', 1),
                              force_sets=gen.pop('force_sets', 'small'), **gen)
@@ -248,7 +248,7 @@ def run_families(ctx, plans, relevant):
             report_mismatches(ctx, model, jobs, bad, relevant, fam_name)
         sim = dict(plan.get('sim') or {})
         if sim:
-            model = Model(fam, rcs=sim.pop('rcs', None), lists=sim.pop('lists', None))
+            model = Model(fam, rcs=sim.pop('rcs', None), lists=sim.pop('lists', None), name_mode=plan.get('name_mode', False))
             sb = simulate(ctx, model, fam_name, sim.pop('num'), sim.pop('depth'), slots=sim.pop('slots', 2), **sim)
             jobs, bad = replay_behaviours(ctx, model, sb, opts=dict(plan.get('opts') or {}, relevant=sorted(relevant)),
                                           label=fam_name + '/sim')
